@@ -155,6 +155,8 @@ def castNode (lhsType : TyId) (rhs : Node) : Outcome (Option Node × List String
   let env := ctx.env
   let rt := rhs.exprType env
   if env.assignable rt lhsType then .ok (some rhs, []) else
+  -- a call that also returns an error cannot be wrapped in a conversion or a `String()` call
+  if rhs.returnsError then .ok (none, []) else
   if ctx.opts.stringer && env.assignable env.stringTy lhsType && env.compliesStringer rt then
     .ok (some (.stringer rhs), [])
   else if ctx.opts.typecast && env.convertible rt lhsType then
